@@ -86,4 +86,18 @@ fn vecs(p: vec3<i32>, q: vec3<i32>) -> vec3<i32> { return p + q; }
 // cases above (case name -> configuration name or "*" -> substring of the
 // problem report).  A case listed here passes only while the defect is still
 // observed.
-var mslKnownDefects = mslDefects{}
+var mslKnownDefects = mslDefects{
+	// M1 (= GLSL D9): `let d = determinant(m)` is declared with the operand's type:
+	// "metal::float2x2 d = metal::determinant(_e1); o[0] = d;" - a float cannot
+	// initialise a float2x2 variable that is then stored to a float.
+	"determinant result type": {"*": `cannot initialise "d"`},
+	// M2 (= GLSL D5): `let t = transpose(m)` (m: mat2x3) is declared "metal::float2x3 t";
+	// metal::transpose(float2x3) is a float3x2 (MSL §6.6): no such conversion.
+	"transpose": {"*": `cannot initialise "t"`},
+	// M3 (= GLSL D4): WGSL round() is round-half-to-even; the text calls metal::round,
+	// which rounds halfway cases away from zero (MSL §6.5); metal::rint is the match.
+	"round ties to even": {"*": "mismatch: buffer [0 0] word 0"},
+	// M4 (front end, = GLSL D8): a call of a user function named "vecs" is lowered to a
+	// vector constructor; the MSL backend then spells the type "metal::int67".
+	"function named vecs": {"*": "metal::int67"},
+}
